@@ -120,9 +120,32 @@ def heavyArg (h : Heap) (v : Val) : Bool :=
     decide (s > 10000000) || decide (d > 100000)
   | _ => false
 
-/-- an undetected cycle below the value: `Serialize` returns, after unrolling it up to the size limit -/
+/-- is a cycle reachable from the frontier? Depth-first search with three colours over an array copy of the heap, explicit stack
+(`(false, r)` = enter r, `(true, r)` = leave r): linear in the reachable part. The model's `hasCycle` (Model/NeoVal: `h.length`
+rounds over the whole heap, each round indexing a list) is the specification; this is what the PREDICTION evaluates - a program
+that loops through DCALL executes Serialize a thousand times on a heap of thousands of objects, and `hasCycle` on every one of
+them is minutes. -/
+partial def dfsCycle (ha : Array Obj) : List (Bool × Nat) → Array UInt8 → Bool
+  | [], _ => false
+  | (true, r) :: st, col => dfsCycle ha st (col.setIfInBounds r 2)
+  | (false, r) :: st, col =>
+    match col.getD r 2 with
+    | 1 => true
+    | 2 => dfsCycle ha st col
+    | _ =>
+      match ha[r]? with
+      | none => dfsCycle ha st col
+      | some o => dfsCycle ha ((objRefs o).map (fun c => (false, c)) ++ (true, r) :: st) (col.setIfInBounds r 1)
+
+def hasCycleFast (h : Heap) (v : Val) : Bool :=
+  match v with
+  | .ref r => dfsCycle h.toArray [(false, r)] (Array.replicate h.length 0)
+  | _ => false
+
+/-- an undetected cycle below the value: `Serialize` returns, after unrolling it up to the size limit. The shipped detector
+(`detect .asShipped`: a path walk without memory, depth <= 11) is only evaluated when there is a cycle at all. -/
 def slowSerialize (h : Heap) (v : Val) : Bool :=
-  hasCycle h v && !(detect .asShipped Perm.id [] h v)
+  hasCycleFast h v && !(detect .asShipped Perm.id [] h v)
 
 inductive VPred | exact | slow | heavy
 
